@@ -76,8 +76,16 @@ theorem le_rintI_of_le (x : ℚ) (M : ℤ) (h : (M : ℚ) ≤ x) : M ≤ rintI x
   have : M ≤ ⌊x⌋ := Int.le_floor.mpr h
   rcases rintI_mem x with e | e <;> omega
 
+/-- over ℚ the sign-of-zero bookkeeping of `rint` disappears -/
+theorem rint_eq (x : ℚ) : rint x = (rintI x : ℚ) := by
+  unfold rint
+  simp only [ofI_eq]
+  split_ifs with h
+  · rw [h]; simp
+  · rfl
+
 theorem aroundDec_eq (d : ℕ) (x : ℚ) : aroundDec d x = (rintI (x * 10 ^ d) : ℚ) / 10 ^ d := by
-  simp [aroundDec, rint, p10_eq]
+  simp [aroundDec, rint_eq, p10_eq]
 
 /-- decimal rounding moves a number by at most half a unit of the last decimal -/
 theorem aroundDec_err (d : ℕ) (x : ℚ) : |aroundDec d x - x| ≤ 1 / (2 * 10 ^ d) := by
@@ -196,8 +204,8 @@ theorem c15_round_is_gp (G : PGrid ℚ) (v : ℚ) :
     roundLower G v = gp G (kLower G v) ∧ roundUpper G v = gp G (kUpper G v) ∧
       roundNearest G v = gp G (kNearest G v) := by
   refine ⟨rfl, rfl, ?_⟩
-  unfold roundNearest gp kNearest rint
-  simp
+  unfold roundNearest gp kNearest
+  simp [rint_eq]
 
 /-- **the index is in range**: for a value inside a grid of `N+1` points, lower and nearest index
 lie in `0..N`; the upper index too unless the value is within the slack of the last point. -/
